@@ -132,7 +132,10 @@ func samePath(a, b ssa.Value) bool {
 func runC04(c *Ctx) {
 	c.rule("N1", "every descent (list / recurse) on a path that can be a child is preceded by Lstat of that path with the is-link side not reaching the descent; listing-only functions pass the obligation to their call sites", 3)
 	c.rule("N2", "a successful return justified by a link-following Exists()==false is preceded by the Lstat link test on the same path", 2)
+	c.rule("N4", "entries matching an exclusion pattern survive: the pattern list is compiled in full (NewExclusionRegexList leaves its loops only at the end of the list or on an error)", 1)
 	c.rule("N3", "removal primitives in the removal call graph are afero.Fs.Remove and the privileged fallback only (no RemoveAll)", 2)
+
+	c.patternLoopsComplete("N4")
 
 	var roots []*ssa.Function
 	for _, n := range c04Roots {
